@@ -47,6 +47,7 @@ def run(ck, prog, tier):
     motion.declare_ints()
     base_q = [V('steps'), V('rate'), V('accel')]
     all_out = []
+    n_const = [0]
     for mode in ('numeric', 'clear'):
         args = [V('steps'), V('rate'), V('accel'),
                 Str.lit('clear') if mode == 'clear' else V('accum')]
@@ -140,6 +141,43 @@ def run(ck, prog, tier):
                   % (what, acc, want, starts[0]), fn.loc(),
                   key='calculate_lm::%s' % ('clear-table' if mode == 'clear' else
                                             ('mirror' if mirrored else 'accumulator')))
+            # D7 constant-rate moves: the duration IS decided - with accel = 0 the accumulator is
+            # affine in the tick count, so the first tick reaching the budget is a ceiling
+            if allowed and all(t[2] == 0 for t in allowed):
+                # sign of the rate parameter on this path: prologue cases refined by the later
+                # tests evaluated at accel = 0 (contradictory paths are infeasible and skipped)
+                possible = {t[1] for t in allowed}
+                for c_, t_ in st.path[cut:]:
+                    nc = motion.norm_path_cond(c_, t_)
+                    if nc is None:
+                        continue
+                    e0 = nc[0].subs({('v', 'accel'): Sym.const(0)})
+                    ident = motion.identify(e0, [V('rate')], [])
+                    if ident is not None:
+                        sat = motion.SAT[nc[1]]
+                        if ident[1] < 0:
+                            sat = {-x for x in sat}
+                        possible &= sat
+                if len(possible) == 1 and 0 not in possible:
+                    neg = (next(iter(possible)) * (-1 if mirrored else 1)) < 0
+                    s_abs = -V('steps') if mirrored else V('steps')
+                    pos_want = -s_abs if neg else s_abs
+                    adj = starts[0] - (TWO31 - 1) if neg else starts[0]
+                    t_want = mk_func('CEIL', (TWO31 * pos_want - adj) / r)
+                    # on these paths accel = 0: substitute before comparing
+                    zero = {('v', 'accel'): Sym.const(0)}
+                    ok_t = motion.strip_int(t_f.subs(zero)) == t_want.subs(zero) and \
+                        pos.subs(zero) == pos_want
+                    ck.ob('C03-D7-constant-rate-duration',
+                          'calculate_lm[%s]::%sconstant-rate %s' % (mode, what,
+                                                                    'negative' if neg else 'positive'),
+                          ok_t,
+                          'with accel = 0 and a %s rate the returned (duration, position) is (%r, '
+                          '%r); the first tick at which the budget is reached is %r at position %r'
+                          % ('negative' if neg else 'positive', t_f.subs(zero), pos.subs(zero),
+                             t_want.subs(zero), pos_want), fn.loc(),
+                          key='calculate_lm::constant-rate-duration')
+                    n_const[0] += 1
             if len(ck.samples) < 4:
                 ck.sample({'mode': mode, 'mirrored': mirrored, 'duration': repr(t_f)[:200],
                            'position': repr(pos), 'accumulator': repr(acc)[:300]})
@@ -156,8 +194,11 @@ def run(ck, prog, tier):
                       'valid sign case (steps, rate, accel) = %s never reaches the computation'
                       % (list(t),), fn.loc(), key='calculate_lm::early-extra')
         ck.floor('calculate_lm[%s] computing paths' % mode, n_main, 20)
+    ck.floor('constant-rate computing paths', n_const[0], 4)
     n_paths, n_ops = motion.check_precision(ck, 'C03-D5-precision', fn, all_out)
     ck.floor('calculate_lm mpmath operations', n_ops, 10)
+    n_div = motion.check_float_division(ck, 'C03-D5-float-division', fn)
+    ck.floor('calculate_lm division sites', n_div, 6)
     # D6 wrapper
     f_w = prog.func('ebb_motion.moveTimeLM')
     ck.saw('functions', f_w.qualname + ' @ ' + f_w.loc())
